@@ -78,7 +78,7 @@ def calNM (cal : List Nat) : Nat := cal.length - 2
 /-- `ht2mjd` (0 = outside the table) -/
 def ht2mjd (cal : List Nat) (h : Ymd) : Nat :=
   let i := u32 (((h.y : Int) - 1) * 12 + ((h.m : Int) - 1) - calSM cal)
-  if i ≥ calNM cal then 0 else (calMT cal i + u32 ((h.d : Int) - 1)) % W
+  if i + 1 ≥ calNM cal then 0 else (calMT cal i + u32 ((h.d : Int) - 1)) % W      -- `i >= nm - 1U`: the last entry is the table's end
 
 /-- the scan `for (i = 0; i < nm && MT[i] <= d; i++);` over the transitions `mt`, counting from `i` -/
 def htScan : List Nat → Nat → Nat → Nat
@@ -129,7 +129,9 @@ def scaleNdim (s y m : Nat) : Nat :=
 def scaleWday (s y m d : Nat) : Nat :=
   if s = 0 then wdayGreg y m d
   else if s ≤ 8 then wdayOfMjd (hij2mjd (scalTyp s) (scalEpo s) ⟨y, m, d⟩)
-  else if s ≤ 10 then wdayOfMjd (ht2mjd (tableOf s) ⟨y, m, d⟩)
+  else if s ≤ 10 then
+    let j := ht2mjd (tableOf s) ⟨y, m, d⟩
+    if j = 0 then 0 else wdayOfMjd j          -- `MIR` for a date the table has not got
   else 0
 
 /-- source half of `echs_instant_rescale`: date in scale `s` to MJD (`none` = goto nul) -/
